@@ -110,7 +110,14 @@ std::map<std::string, std::string> snapshot();
 // Fault injection: opening `path` in a writing mode (w/a) or any mode fails with the given errno.
 void failOpen(const std::string &path, int err, bool writesOnly);
 void clearFaults();
-struct Counters { uint64_t opens = 0, openFail = 0, openInjectedFail = 0, creates = 0, truncates = 0; };
+// Descriptor 0: a process may be started with standard input closed (cron, daemons, `cmd <&-`).
+// Then the first file the program opens is handed descriptor 0, and whatever reads "standard
+// input" reads that file (at the shared offset) for as long as it stays open; with nothing
+// readable on descriptor 0 a read fails, which the program sees as end of input.
+void setStdinClosed(bool closed);
+bool stdinClosed();
+long readFd0(char *buf, size_t n);     // -1: nothing readable there (EBADF); 0: end of that file
+struct Counters { uint64_t opens = 0, openFail = 0, openInjectedFail = 0, creates = 0, truncates = 0, fd0Taken = 0, fd0Reads = 0; };
 extern Counters counters;
 } // namespace fs
 
